@@ -54,12 +54,16 @@ Fixpoint assoc {V} (k : list N) (l : list (list N * V)) : option V :=
 
 Record state := {
   st_default : policy;                         (* worker::Config::policy *)
-  st_policy_err : bool;                        (* the policy database cannot be read *)
+  st_policy_err : bool;                        (* the policy database cannot be read (dropped table, locked) *)
   st_explicit : list (list N * policy);        (* rows of the repository policy table *)
   st_repos : list (list N * repo_entry)        (* the storage *)
 }.
 
-(* policy::Config::seed_policy(rid)?.policy — None: PolicyStore error *)
+(* policy::Config::seed_policy(rid)?.policy — None: PolicyStore error.  Since the
+   fix "a failure to read a repository's seeding policy row is an error, not 'no
+   policy'" this covers failures when the statement is prepared AND when the row
+   is stepped (before, a step failure such as a locked database silently became
+   "no row" and the default policy applied). *)
 Definition seed_policy (st : state) (rid : list N) : option policy :=
   if st_policy_err st then None
   else Some (match assoc rid (st_explicit st) with
